@@ -7,6 +7,7 @@
  * can be replayed with --only K.  Output: JSON lines (viol / stat / summary) like the sweep.
  */
 #include "mon_common.h"
+#include <fcntl.h>
 #include <sys/wait.h>
 
 static FILE *hm_out; static uint64_t hm_seed; static int hm_shard, hm_nshards = 1;
@@ -241,6 +242,12 @@ static void crystal_history(long hno, int maxlen, int builtin, const char *tmpdi
         case 4: fprintf(f, "\n\n"); break;
         default: fprintf(f, "#EOF"); break; }
       fclose(f);
+      if (xv_below(&r, 5) == 0) {       /* the same file with CR LF line ends (written on another system): the same crystals - provided no line outgrows the reader's 99 characters */
+        FILE *g = fopen(path, "rb"); long flen = 0, j_, o_ = 0, cur = 0, longest = 0; char *in_ = NULL, *out_ = NULL;
+        if (g) { fseek(g, 0, SEEK_END); flen = ftell(g); fseek(g, 0, SEEK_SET); in_ = malloc(flen + 1); out_ = malloc(2 * flen + 2); if (fread(in_, 1, flen, g) != (size_t)flen) flen = 0; fclose(g); }
+        for (j_ = 0; j_ < flen; j_++) { if (in_[j_] == '\n') { if (cur > longest) longest = cur; cur = 0; out_[o_++] = '\r'; } else cur++; out_[o_++] = in_[j_]; }
+        if (flen > 0 && longest <= 95 && (g = fopen(path, "wb")) != NULL) { if (fwrite(out_, 1, o_, g) != (size_t)o_) {} fclose(g); TR("crlf:"); }
+        free(in_); free(out_); }
       e = NULL; LAST("Crystal_ReadFile(%s) kind=%d corrupt=%d dup=%d n=%d", path, kind, corrupt, dup, ncr);
       TR("readfile(n=%d,corrupt=%d@%d,dup=%d);", ncr, corrupt, badpos, dup);
       { /* one file in twelve arrives through a pipe (/proc/self/fd/N): fopen works, fseek does not.  Whatever the library makes of such a
@@ -258,7 +265,11 @@ static void crystal_history(long hno, int maxlen, int builtin, const char *tmpdi
           if (!rv) check_array(&A, "readfile-from-pipe");
           else { int n2 = 0, j2; char **l2 = Crystal_GetCrystalsList(A.arr, &n2, NULL); for (j2 = 0; l2 && l2[j2]; j2++) { int q; for (q = 0; q < ncr; q++) if (!strcmp(fc[q].name, l2[j2]) && m_find(&A, l2[j2]) < 0) { Crystal_Struct *g2 = Crystal_GetCrystal(l2[j2], A.arr, NULL); if (g2) { m_crystal t = fc[q]; t.n_atom = g2->n_atom > MAXAT ? MAXAT : g2->n_atom; memcpy(t.atom, g2->atom, sizeof(Crystal_Atom) * t.n_atom); m_add(&A, &t); Crystal_Free(g2); } } xrlFree(l2[j2]); } if (l2) xrlFree(l2); }
           free(fc); continue; } }
-      rv = Crystal_ReadFile(path, A.arr, ep);
+      if (xv_below(&r, 8) == 0) {       /* a host that has closed its standard input (daemon, GUI program): descriptor 0 is free, the file the library opens gets it */
+        int saved = fcntl(0, F_DUPFD, 3); close(0); TR("fd0free:");   /* (a local variable is called dup here) */
+        rv = Crystal_ReadFile(path, A.arr, ep);
+        if (saved >= 0) { dup2(saved, 0); close(saved); } }
+      else rv = Crystal_ReadFile(path, A.arr, ep);
       unlink(path);
       if (!corrupt && !dup && builtin && A.n + ncr > CRYSTALARRAY_MAX) {
         /* more definitions than the fixed table has room for: refused as a whole, nothing of the file stays behind */
